@@ -21,6 +21,9 @@ def run(tier, rep):
         "the TLA+ reading of the standard is calibrated against libstdc++ on the identical calls (zero deviations "
         "required); tetl's non-standard sorts are calibrated on std::sort / std::stable_sort",
         "the model theorems (Algo.tla) are proven on a smaller bound than the replayed domain (see mc_constants)",
+        "the iterator-adaptor operations (reverse_iterator relations/navigation, next/prev/advance/distance) run on one "
+        "sequence per length (positions and offsets are exhaustive, element values only matter for dereference); category "
+        "'rev' runs the iterator-comparing algorithms over the library's reverse_iterator<pointer>",
     ]
 
 
